@@ -1,3 +1,4 @@
+import Plotink.Proofs.C11Gen
 import Plotink.Proofs.C11Core
 import Plotink.Proofs.C11Parse
 
@@ -182,5 +183,89 @@ theorem C11_parse_default :
     parTokens none = (alignName .mid .mid, mosName .meet) ∧
     ∀ s, (∀ c ∈ s, isSep c = true) → parTokens (some s) = (alignName .mid .mid, mosName .meet) :=
   ⟨rfl, fun s hs => parTokens_blank s hs⟩
+
+/-! ## The same statements about the SOURCE-REGENERATED code
+
+`Gen.vb_scale` is regenerated from `plotink/plot_utils.py` by the translator on every run
+(`lean/Plotink/Gen/vb_scale.lean`).  The attribute texts are `Option String` (`C11.encOS`: `None` or a `str`), the
+document size is a Python `int` or `float` (`Py.IsNum`), arithmetic is exact (`Rounding.exact`).  `C11.EncXf r t`: the
+value `r` is a 4-tuple of `int`s/`float`s holding the transform `t`; `C11.xfVal t`: the tuple of four `float`s.
+Hypothesis `parseVB … ≠ nonfinite`: none of the four viewBox numbers is an `inf`/`nan` numeral.
+Proofs: `Proofs/C11Gen.lean`. -/
+
+/-- **bridge** `Gen.vb_scale = C11.vbScale` -/
+theorem C11_gen_bridge (amb : Nat) (vb par : Option String) (Wv Hv : Py.Val) (W H : Rat)
+    (hW : Py.IsNum Wv W) (hH : Py.IsNum Hv H) (hfin : parseVB (vb.map String.toList) ≠ .nonfinite) :
+    ∃ t, vbScale (vb.map String.toList) (par.map String.toList) W H = .xf t ∧
+      EncXf (Gen.vb_scale Rounding.exact amb (encOS vb) (encOS par) Wv Hv) t :=
+  vb_scale_bridge amb vb par Wv Hv W H hW hH hfin
+
+/-- `C11_valid` for the regenerated code: the four floats of `vbCore` -/
+theorem C11_gen_valid (amb : Nat) (s : String) (par : Option String) (a m : List Char) (Wv Hv : Py.Val)
+    (x y w h W H : Rat) (hW : Py.IsNum Wv W) (hH : Py.IsNum Hv H)
+    (hvb : parseVB (some s.toList) = .ok x y w h) (hpar : parTokens (par.map String.toList) = (a, m))
+    (hw : 0 < w) (hh : 0 < h) (hW0 : 0 < W) (hH0 : 0 < H) :
+    Gen.vb_scale Rounding.exact amb (.str s) (encOS par) Wv Hv = xfVal (vbCore a m x y w h W H) := by
+  rw [vb_scale_valid amb s par Wv Hv x y w h W H hW hH hvb hw hh hW0 hH0, hpar]
+
+/-- `C11_none` for the regenerated code: `none` stretches the viewBox onto the page -/
+theorem C11_gen_none (amb : Nat) (s : String) (par : Option String) (mos : List Char) (Wv Hv : Py.Val)
+    (x y w h W H : Rat) (hW : Py.IsNum Wv W) (hH : Py.IsNum Hv H)
+    (hvb : parseVB (some s.toList) = .ok x y w h) (hpar : parTokens (par.map String.toList) = (sNone, mos))
+    (hw : 0 < w) (hh : 0 < h) (hW0 : 0 < W) (hH0 : 0 < H) :
+    ∃ t, Gen.vb_scale Rounding.exact amb (.str s) (encOS par) Wv Hv = xfVal t ∧ t.sx = W / w ∧ t.sy = H / h ∧
+      (x + t.ox) * t.sx = 0 ∧ (x + w + t.ox) * t.sx = W ∧ (y + t.oy) * t.sy = 0 ∧ (y + h + t.oy) * t.sy = H := by
+  obtain ⟨t, ht, rest⟩ := C11_none (some s.toList) (par.map String.toList) mos x y w h W H hvb hpar hw hh hW0 hH0
+  rw [C11_valid (some s.toList) (par.map String.toList) sNone mos x y w h W H hvb hpar hw hh hW0 hH0] at ht
+  cases ht
+  exact ⟨_, C11_gen_valid amb s par sNone mos Wv Hv x y w h W H hW hH hvb hpar hw hh hW0 hH0, rest⟩
+
+/-- `C11_uniform` and `C11_align` for the regenerated code: one of the nine alignments — uniform scale, the smaller
+axis ratio for `meet` and the larger for `slice`, and the named viewBox position lands on the named page position -/
+theorem C11_gen_uniform_align (amb : Nat) (s : String) (par : Option String) (ax ay : Pos) (m : MOS) (Wv Hv : Py.Val)
+    (x y w h W H : Rat) (hW : Py.IsNum Wv W) (hH : Py.IsNum Hv H)
+    (hvb : parseVB (some s.toList) = .ok x y w h)
+    (hpar : parTokens (par.map String.toList) = (alignName ax ay, mosName m))
+    (hw : 0 < w) (hh : 0 < h) (hW0 : 0 < W) (hH0 : 0 < H) :
+    ∃ t, Gen.vb_scale Rounding.exact amb (.str s) (encOS par) Wv Hv = xfVal t ∧ t.sx = t.sy ∧
+      t.sx = fitScale m (W / w) (H / h) ∧
+      (vbPt ax x w + t.ox) * t.sx = pagePt ax W ∧ (vbPt ay y h + t.oy) * t.sy = pagePt ay H := by
+  obtain ⟨a, b, c⟩ := core_uniform ax ay m x y w h W H hw hh hW0 hH0
+  exact ⟨_, C11_gen_valid amb s par _ _ Wv Hv x y w h W H hW hH hvb hpar hw hh hW0 hH0, a, b, c.1, c.2⟩
+
+/-- `C11_identity` for the regenerated code.  Missing attribute, fewer than four tokens, a rejected token: `(1, 1, 0, 0)`
+for every rounding mode; non-positive sizes: the identity transform in exact arithmetic -/
+theorem C11_gen_identity (R : Rounding) (amb : Nat) (parv Wv Hv : Py.Val) :
+    Gen.vb_scale R amb .none_ parv Wv Hv = identityVal ∧
+    (∀ s : String, (pySplit (commaToBlank (pyStrip s.toList))).length < 4 →
+      Gen.vb_scale R amb (.str s) parv Wv Hv = identityVal) ∧
+    (∀ (s : String) t0 t1 t2 t3 rest, pySplit (commaToBlank (pyStrip s.toList)) = t0 :: t1 :: t2 :: t3 :: rest →
+      (parseFloat t0 = none ∨ parseFloat t1 = none ∨ parseFloat t2 = none ∨ parseFloat t3 = none) →
+      Gen.vb_scale R amb (.str s) parv Wv Hv = identityVal) ∧
+    (∀ (s : String) (par : Option String) (W H x y w h : Rat), Py.IsNum Wv W → Py.IsNum Hv H →
+      parseVB (some s.toList) = .ok x y w h → (w ≤ 0 ∨ h ≤ 0 ∨ W ≤ 0 ∨ H ≤ 0) →
+      EncXf (Gen.vb_scale Rounding.exact amb (.str s) (encOS par) Wv Hv) identity) := by
+  refine ⟨vb_none R amb parv Wv Hv, fun s h => vb_short R amb s parv Wv Hv h, ?_, ?_⟩
+  · intro s t0 t1 t2 t3 rest hs hbad
+    refine vb_err R amb s parv Wv Hv t0 t1 t2 t3 rest hs ?_
+    rcases hbad with h | h | h | h
+    · exact Or.inl (by rw [h]; rfl)
+    · exact Or.inr (Or.inl (by rw [h]; rfl))
+    · exact Or.inr (Or.inr (Or.inl (by rw [h]; rfl)))
+    · exact Or.inr (Or.inr (Or.inr (by rw [h]; rfl)))
+  · intro s par W H x y w h hW hH hvb hle
+    obtain ⟨t, ht, henc⟩ := vb_scale_bridge amb (some s) par Wv Hv W H hW hH
+      (by simp only [Option.map_some]; rw [hvb]; exact fun e => by cases e)
+    have hid := (C11_identity (some s.toList) (par.map String.toList) W H).2.2.2 x y w h hvb hle
+    simp only [Option.map_some] at ht
+    rw [hid] at ht
+    cases ht
+    exact henc
+
+/-- non-vacuity: a concrete viewBox / preserveAspectRatio pair meets the hypotheses of `C11_gen_uniform_align` -/
+example : parseVB (some ("0 -2.5,1e1 4" : String).toList) = .ok 0 (-5/2) 10 4 ∧
+    parTokens ((some " dEfer, xMinYMax ,SLICE" : Option String).map String.toList) = (alignName .min .max, mosName .slice) ∧
+    Py.IsNum (.int 20) 20 ∧ Py.IsNum (.flt 2) 2 :=
+  ⟨by decide +kernel, by decide +kernel, Or.inr ⟨20, rfl, by norm_num⟩, Or.inl rfl⟩
 
 end Plotink
